@@ -19,6 +19,7 @@ const (
 	TypeGA = "GA" // input of the generic controllers
 	TypeGB = "GB" // output of the generic controllers
 	TypeGC = "GC" // ownerless dependants removed by the cleanup controller
+	TypeGD = "GD" // a second kind of dependants (cleanup controllers with combined handlers)
 )
 
 // AExt / BExt / CExt carry the resource definitions.
@@ -26,7 +27,13 @@ type (
 	AExt struct{}
 	BExt struct{}
 	CExt struct{}
+	DExt struct{}
 )
+
+// ResourceDefinition implements typed.Extension.
+func (DExt) ResourceDefinition() meta.ResourceDefinitionSpec {
+	return meta.ResourceDefinitionSpec{Type: TypeGD, DefaultNamespace: "n1"}
+}
 
 // ResourceDefinition implements typed.Extension.
 func (AExt) ResourceDefinition() meta.ResourceDefinitionSpec {
@@ -48,7 +55,13 @@ type (
 	A = typed.Resource[VSpec, AExt]
 	B = typed.Resource[VSpec, BExt]
 	C = typed.Resource[VSpec, CExt]
+	D = typed.Resource[VSpec, DExt]
 )
+
+// NewD creates a dependant resource of the second kind.
+func NewD(id, val string) *D {
+	return typed.NewResource[VSpec, DExt](resource.NewMetadata("n1", TypeGD, id, resource.VersionUndefined), VSpec{Value: val})
+}
 
 // NewA creates an input resource.
 func NewA(id, val string) *A {
